@@ -480,6 +480,29 @@ def run_sqlite_kills(chk: Check, s1, s2, label, max_kills):
         if load(probe) != LN:
             chk.disagree("a complete SQLite save in a child process does not load as the new checkpoint", {"label": label})
         chk.extra.setdefault("traces", []).append({"label": "sqlite:" + label, "events": len(events), "by_call": {k: sum(1 for e in events if e[0] == k) for k in sorted({e[0] for e in events})}})
+        # shape of the trace = the journal model's transaction(s): open journal, j journal writes, n database page writes, delete journal
+        txs, cur = [], None
+        ok_shape = True
+        for g, (nm, f, _, _, b) in enumerate(events):
+            isj = b.endswith("-journal")
+            if nm == "openat" and isj:
+                cur = {"start": g, "j": 0, "n": 0, "end": None}; txs.append(cur)
+            elif nm == "openat":
+                continue                                         # the database file itself (once, before the first transaction)
+            elif cur is None or cur["end"] is not None:
+                ok_shape = False
+            elif nm in ("pwrite64", "write") and isj and cur["n"] == 0:
+                cur["j"] += 1
+            elif nm in ("pwrite64", "write") and not isj and cur["j"] > 0:
+                cur["n"] += 1
+            elif nm in ("unlink", "unlinkat") and isj and cur["n"] > 0:
+                cur["end"] = g
+            else:
+                ok_shape = False
+        if not ok_shape or not txs or any(t["end"] is None for t in txs):
+            chk.disagree("file operations of the SQLite save != journal model (per transaction: open journal, journal writes, database page writes, delete journal)",
+                         {"label": label, "events_head": [f"{e[0]}:{e[4]}" for e in events[:12]], "transactions": txs})
+            txs = []
         idx = list(range(len(events)))
         if len(idx) > max_kills:
             stride = len(idx) / max_kills
@@ -490,10 +513,20 @@ def run_sqlite_kills(chk: Check, s1, s2, label, max_kills):
             g, nm, j, f = job
             d = tempfile.mkdtemp(prefix="vpc06qd"); shutil.rmtree(d); shutil.copytree(base, d)
             ev, saved = strace_events(d, statefile, backend="sqlite", inject=(nm, j), names=names)
-            return job, d, saved, len(ev)
+            # the kill must have landed on the intended call: the operations seen are the baseline's first g (+ the killed one)
+            want = [(e[0], e[4]) for e in events[:g + 1]]
+            got = [(e[0], e[4]) for e in ev]
+            return job, d, saved, got in (want, want[:-1])
 
         with ThreadPoolExecutor(max_workers=12) as ex:
             results = list(ex.map(one, jobs))
+        reqs, req_of = [], {}
+        last = txs[-1] if txs else None
+        for (g, nm, j, f) in jobs:
+            if last is not None and g > last["start"]:
+                # kill on entry of event g: the operations completed in the last transaction are those after its `openat journal`
+                req_of[g] = len(reqs); reqs.append(f"ckpt.journal {last['j']} {last['n']} {g - last['start'] - 1} 1")
+        answers = lean_run(reqs) if reqs else []
         for (g, nm, j, f), d, saved, nev in results:
             work.append(d)
             if saved:
@@ -502,6 +535,12 @@ def run_sqlite_kills(chk: Check, s1, s2, label, max_kills):
             left = sorted(os.listdir(d))
             got = load(d)
             out = "new" if got == LN else "prev" if got == LP else ("error" if isinstance(got, str) else "hybrid")
+            model = answers[req_of[g]] if g in req_of else ("prev" if last is not None else None)     # earlier transactions (DDL) do not change what is loaded
+            if not nev:
+                chk.count("sqlite_kill:not-at-intended-call(outcome judged, not compared with the model)")
+            if nev and model is not None and model != out:
+                chk.disagree("restore after a killed SQLite save != BlackIt.Checkpoint.Journal.load (loader that rolls a complete journal back)",
+                             {"label": label, "event": [g, nm, f], "impl": out, "model": model, "transaction": last})
             chk.case(["sqlite-kill", label, g], True, {"backend": "sqlite", "history": label, "killed_at": f"{nm} #{g}/{len(events)} on {f}", "files_left": left, "restore": out})
             chk.count(f"sqlite_kill:{label}:{out}")
             if out == "hybrid":
